@@ -431,6 +431,14 @@ func c04Alphabet(s *sessSys) []sessReq {
 				p, f, q = up4RuleSet(ue, teid, c04Peers[1], c04SDFs[0], 1, 0)
 				p = []sPDR{p[2], p[3], p[0], p[1]}
 				mkEst("est-sdf0-first-peer1", p, f, q)
+				if vEnv.Thorough || s.in.cfg.P4Conf == nil || s.in.cfg.P4Conf.SliceID == 0 {
+					// a dedicated bearer: the application rules' uplink PDR arrives through a second N3 tunnel (its own TEID)
+					p, f, q = up4RuleSet(ue, teid, c04Peers[0], c04SDFs[0], 1, 0)
+					ft := *p[2].FTEID
+					ft.TEID = teid + 0x50
+					p[2].FTEID = &ft
+					mkEst("est-sdf0-second-uplink-tunnel", p, f, q)
+				}
 				if vEnv.Thorough {
 					p, f, q = up4RuleSet(ue, teid, c04Peers[0], c04SDFs[1], 2, 0)
 					mkEst("est-sdf1-2qer-peer0", p, f, q)
